@@ -27,6 +27,7 @@ class Scen(object):
     self.mono = []
     self.cong = []
     self.replay = None        # {'class': name, 'kwargs': {k: python value | z3 expr}, ...}
+    self.abstract = []        # [(z3 term, fresh constant)]: generalise the term in every formula of the VC
 
   def claim(self, name, goal):
     self.goals[name] = ("claim", goal)
@@ -234,6 +235,14 @@ def _run_clause(case, cname, per_path, timeout, known_entries, res):
       out["reason"] += " " + str(s.info["raised"])[:1500]
     g = _goal_expr(g)
     base = list(p.pc) + [z3.Not(g)]
+    pairs = list(getattr(s, "abstract", []) or []) if s is not None else []
+    if pairs:
+      # generalisation: a sub-term is replaced by a fresh constant in the WHOLE VC (hypotheses and goal);
+      # validity of the generalised VC implies validity of the original (it is a substitution instance)
+      gen = lambda f: z3.substitute(f, *pairs) if isinstance(f, z3.ExprRef) else f
+      base = [gen(f) for f in base]
+      hints = [gen(h) for h in hints]
+      vars_ = {k: gen(v) for k, v in vars_.items()}
     excl = []
     for ent in known_entries:
       try:
